@@ -196,7 +196,8 @@ def check(repo):
             kw = dict(rt[3])
             w = rt[2][0] if rt[2] else kw.get("length")
             o = rt[2][1] if len(rt[2]) > 1 else kw.get("byteorder", ("const", "big"))
-            if w not in widths or o != ("const", "big"):
+            from ..intexpr import same_integer
+            if not (w in widths or (w is not None and same_integer(w, widths[0]))) or o != ("const", "big"):
                 ok = False
         r2.require(ok and bool(rets), fb, "bytes: ceil(length / 8) big-endian", "Bitset.__bytes__ no longer encodes the value in (length + 7) // 8 big-endian bytes")
     for nm, want, what in (("__len__", SL, "len is the width"), ("__int__", SV, "int is the value")):
@@ -450,6 +451,13 @@ def _check_halving(repo, r4):
                 lefts = [("call", ("method", X, "get_higher_bits"), (("op", "Sub", lx, h),), ()) for h in Hc] + [("call", ("method", X, "get_higher_bits"), (("op", "FloorDiv", lx, ("const", 2)),), ())]
                 if rt is not None and rt[0] == "tuple" and len(rt[1]) == 2 and rt[1][0] in lefts and rt[1][1] in rights:
                     H = Hc
+                elif rt is not None and rt[0] == "tuple" and len(rt[1]) == 2:
+                    # the same split with the two lengths spelled differently (n - n // 2 for the low half, n // 2 for the high half ...)
+                    from ..intexpr import same_integer
+                    lo_, hi_ = rt[1][1], rt[1][0]
+                    if lo_[0] == "call" and lo_[1] == ("method", X, "get_lower_bits") and len(lo_[2]) == 1 and hi_[0] == "call" and hi_[1] == ("method", X, "get_higher_bits") and \
+                            len(hi_[2]) == 1 and same_integer(lo_[2][0], Hc[0]) and same_integer(hi_[2][0], ("op", "Sub", lx, Hc[0])):
+                        H = Hc + [lo_[2][0]]
             if H is None:
                 okh = False
                 continue
@@ -462,9 +470,10 @@ def _check_halving(repo, r4):
                 short_left = ps.has(lambda k, t: k[0] == "<" and k[1].startswith("len(") and t)
                 if short_left:
                     pad_seen = True
-                    if not (len(pads) == 1 and list(pads.values())[0] in H):
+                    from ..intexpr import same_integer as _same
+                    if not (len(pads) == 1 and (list(pads.values())[0] in H or _same(list(pads.values())[0], H[0]))):
                         r4.fail_fn(f, f.node, "padding variant equalises the halves", "half_bits no longer pads the left half to the right half's length")
-                elif pads and not all(v in H for v in pads.values()):
+                elif pads and not all(v in H or __import__("sa.intexpr", fromlist=["same_integer"]).same_integer(v, H[0]) for v in pads.values()):
                     okh = False
         r4.require(okh and seen, f, "%s splits at (n + 1) // 2" % name,
                    "%s no longer splits into the low (n + 1) // 2 bits and the remaining high bits (returns %s)" % (name, S.show(shown)[:140] if shown else None))
